@@ -1059,7 +1059,27 @@ impl<'tcx> Exporter<'tcx> {
                 _ => {}
             }
         }
+        // implied target-feature closure for every feature named on some fn
+        let mut tf_names: Vec<rustc_span::Symbol> = Vec::new();
+        for ldid in tcx.hir_body_owners() {
+            let did = ldid.to_def_id();
+            if matches!(tcx.def_kind(did), DefKind::Fn | DefKind::AssocFn) {
+                for f in tcx.codegen_fn_attrs(did).target_features.iter() {
+                    if !tf_names.contains(&f.name) {
+                        tf_names.push(f.name);
+                    }
+                }
+            }
+        }
+        let mut tf_implied = Vec::new();
+        for n in tf_names {
+            let imp: Vec<J> = tcx.implied_target_features(n).iter().map(|s| J::s(s.as_str())).collect();
+            tf_implied.push((n.as_str().to_string(), J::Arr(imp)));
+        }
+        let unstable_tf: Vec<J> = tcx.sess.unstable_target_features.iter().map(|s| J::s(s.as_str())).collect();
         J::obj()
+            .set("tf_implied", J::Obj(tf_implied))
+            .set("session_target_features", J::Arr(unstable_tf))
             .set("n_body_owners", num(n_bodies))
             .set("n_definitions", num(n_defs))
             .set("fns", J::Arr(fns))
